@@ -6,6 +6,7 @@ import (
 	"context"
 	"errors"
 	"io"
+	"strings"
 	"sync"
 	"time"
 
@@ -24,6 +25,7 @@ type vStore struct {
 	log   []vStoreOp
 	// number of upcoming calls of each kind that fail
 	failStore, failList, failLoad, failDelete int
+	failLoadName                              string // if set, only Loads of names containing it fail
 }
 
 type vStoreOp struct {
@@ -64,7 +66,7 @@ func (st *vStore) List(ctx context.Context, prefix string) (simpleblob.BlobList,
 func (st *vStore) Load(ctx context.Context, name string) ([]byte, error) {
 	st.mu.Lock()
 	defer st.mu.Unlock()
-	if st.failLoad > 0 {
+	if st.failLoad > 0 && (st.failLoadName == "" || strings.Contains(name, st.failLoadName)) {
 		st.failLoad--
 		st.log = append(st.log, vStoreOp{"load", name, false})
 		return nil, errVStore
